@@ -195,7 +195,11 @@ def _work(args):
             solver = "cvc5-1.0.3"
         else:
             tactic = backend.split(":", 1)[1] if ":" in backend else None
-            res, model, why = _solve_z3(smt2, budget_s, True, tactic)
+            zb = budget_s
+            if backend.startswith("z3+cvc5"):
+                # z3 first for a short slice (it returns models), cvc5 for the rest of the budget
+                zb, tactic = min(budget_s, float(tactic or 20)), None
+            res, model, why = _solve_z3(smt2, zb, True, tactic)
             solver = "z3-5.1" + (":" + tactic if tactic else "")
         if res == "unknown":
             # portfolio: the other solvers, within what is left of the budget
